@@ -74,7 +74,13 @@ def parse(grid_str, mode=MODE_ZINC, charset='utf-8', single=True):
         if isinstance(grid_data, dict):
             grid_data = [grid_data]
     else:
-        grid_data = GRID_SEP.split(TRAILING_NL_RE.sub('\n', grid_str))
+        # The last row may or may not be terminated by a newline; the grammar
+        # wants exactly one.  An empty document holds no grids at all.
+        grid_str = grid_str.rstrip('\r\n')
+        if grid_str:
+            grid_data = GRID_SEP.split(grid_str + '\n')
+        else:
+            grid_data = []
 
     grids = list(map(_parse, grid_data))
     if single:
